@@ -85,8 +85,8 @@ JUDGES = {"encode": judge_encode, "decode": judge_decode}
 def shards(tier, seed):
     T = tier == "thorough"
     return ([{"name": "lengths-%d" % i, "part": i, "exhaustive": "every length 0..512, then to 4096 in steps of 128"} for i in range(8)]
-            + [{"name": "layouts-%d" % i, "count": 2000 if T else 200} for i in range(8)]
-            + [{"name": "malformed-%d" % i, "count": 1500 if T else 150} for i in range(4)])
+            + [{"name": "layouts-%d" % i, "count": 8000 if T else 200} for i in range(8)]
+            + [{"name": "malformed-%d" % i, "count": 6000 if T else 150} for i in range(4)])
 
 
 def _cli(rng, op, data, profile=None):
